@@ -201,13 +201,12 @@ Fixpoint mget (n : N) (m : mval) : option val :=
   | [] => None
   | (k, v) :: r => if N.eqb k n then Some v else mget n r
   end.
+(* Set: replace the entry if the field is there, else add it (a dynamic message is a map; the order of
+   this list carries no meaning, canonical order is restored by [canon] when comparing) *)
 Fixpoint mset (n : N) (v : val) (m : mval) : mval :=
   match m with
   | [] => [(n, v)]
-  | (k, w) :: r =>
-    if N.ltb n k then (n, v) :: m
-    else if N.eqb n k then (n, v) :: r
-    else (k, w) :: mset n v r
+  | (k, w) :: r => if N.eqb k n then (n, v) :: r else (k, w) :: mset n v r
   end.
 Definition is_zero_val (v : val) : bool :=
   match v with
@@ -271,6 +270,20 @@ Variable tt : N.          (* target type of the element whose options are interp
 Definition is_omsg (v : oval) : bool := match v with OMsg _ => true | _ => false end.
 Definition is_kmsg (k : kind) : bool := match k with KMsg _ => true | _ => false end.
 
+(* the loop of setOptionField over the elements of an array literal *)
+Definition list_loop (fvf : field -> oval -> option val * errs) (fld : field)
+  : list oval -> mval -> errs -> mval * errs :=
+  fix loop (items : list oval) (msg : mval) (flag : errs) {struct items} : mval * errs :=
+    match items with
+    | [] => (msg, flag)
+    | it :: r =>
+      let '(ov, e) := fvf fld it in
+      match ov with
+      | None => (msg, flag ++ e)
+      | Some x => loop r (mappend (fnum fld) x msg) (flag ++ e)
+      end
+    end.
+
 (* setOptionField, parameterised by the evaluator of one value (fieldValue).
    fields = the fields of the message msg belongs to; foreign = fld is an extension of another
    message (every reflective access to msg through it panics in dynamicpb).
@@ -281,19 +294,9 @@ Definition set_option_field_with (fvf : field -> oval -> option val * errs)
   | OList sl =>
     if negb (frep fld) then (msg, [EArrayNonRepeated])
     else if foreign then (msg, [EPanic])
-    else
-      (fix loop (items : list oval) (msg : mval) (flag : errs) {struct items} : mval * errs :=
-         match items with
-         | [] => (msg, flag)
-         | it :: r =>
-           let '(ov, e) := fvf fld it in
-           match ov with
-           | None => (msg, flag ++ e)
-           | Some x => loop r (mappend (fnum fld) x msg) (flag ++ e)
-           end
-         end) sl msg []
+    else list_loop fvf fld sl msg []
   | _ =>
-    if foreign && is_kmsg (fkind fld) && is_omsg v then (msg, [EPanic])
+    if foreign && (frep fld || (is_kmsg (fkind fld) && is_omsg v)) then (msg, [EPanic])
     else
     let '(ov, e) := fvf fld v in
     match ov with
@@ -318,6 +321,23 @@ Definition lit_field (md : nat) (n : lname) : res (field * bool) :=
     end
   end.
 
+(* the loop of messageLiteralValue over the fields of the literal; msg is the fresh message of type md,
+   had = hadError *)
+Definition lit_loop (fv : field -> oval -> option val * errs) (md : nat)
+  : list (lname * oval) -> mval -> bool -> errs -> option val * errs :=
+  fix lit (fs : list (lname * oval)) (msg : mval) (had : bool) (flag : errs) {struct fs} : option val * errs :=
+    match fs with
+    | [] => if had then (None, flag) else (Some (VM msg), flag)
+    | (nm, fv1) :: r =>
+      match lit_field md nm with
+      | Err x => lit r msg true (flag ++ [x])
+      | Ok (ffld, foreign) =>
+        let usage := check_field_usage tt ffld in
+        let '(msg', e) := set_option_field_with fv (msg_fields sch md) foreign msg ffld fv1 in
+        lit r msg' had (flag ++ usage ++ e)
+      end
+    end.
+
 (* fieldValue together with messageLiteralValue.  The result is the value (None = invalid) and the
    errors reported while computing it. *)
 Fixpoint field_value (fld : field) (v : oval) (inlit : bool) {struct v} : option val * errs :=
@@ -333,22 +353,7 @@ Fixpoint field_value (fld : field) (v : oval) (inlit : bool) {struct v} : option
     end
   | KMsg md =>
     match v with
-    | OMsg fs =>
-      (* messageLiteralValue on a fresh message of type md *)
-      (fix lit (fs : list (lname * oval)) (msg : mval) (had : bool) (flag : errs) {struct fs}
-         : option val * errs :=
-         match fs with
-         | [] => if had then (None, flag) else (Some (VM msg), flag)
-         | (nm, fv) :: r =>
-           match lit_field md nm with
-           | Err x => lit r msg true (flag ++ [x])
-           | Ok (ffld, foreign) =>
-             let usage := check_field_usage tt ffld in
-             let '(msg', e) :=
-               set_option_field_with (fun f x => field_value f x true) (msg_fields sch md) foreign msg ffld fv in
-             lit r msg' had (flag ++ usage ++ e)
-           end
-         end) fs [] false []
+    | OMsg fs => lit_loop (fun f x => field_value f x true) md fs [] false []
     | _ => (None, [ETypeMessage])
     end
   | k =>
@@ -510,7 +515,24 @@ Fixpoint val_eqb (a b : val) {struct a} : bool :=
        end) es gs
   | _, _ => false
   end.
-Definition mval_eqb (a b : mval) : bool := val_eqb (VM a) (VM b).
+(* canonical order: fields by number, at every level *)
+Fixpoint insert_sorted (k : N) (v : val) (m : mval) : mval :=
+  match m with
+  | [] => [(k, v)]
+  | (k', v') :: r => if N.leb k k' then (k, v) :: m else (k', v') :: insert_sorted k v r
+  end.
+Fixpoint canon_val (v : val) {struct v} : val :=
+  match v with
+  | VS _ => v
+  | VL es => VL (map canon_val es)
+  | VM fs => VM ((fix go (fs : list (N * val)) : mval :=
+                    match fs with
+                    | [] => []
+                    | (k, x) :: r => insert_sorted k (canon_val x) (go r)
+                    end) fs)
+  end.
+Definition canon (m : mval) : mval := match canon_val (VM m) with VM fs => fs | _ => m end.
+Definition mval_eqb (a b : mval) : bool := val_eqb (VM (canon a)) (VM (canon b)).
 
 (* what is serialised: fields without presence that hold the zero value are not on the wire *)
 Definition find_field (sch : schema) (md : nat) (k : N) : option field :=
@@ -599,8 +621,13 @@ Inductive obs := ObsOk (tree : mval) (remain : list nat) | ObsErr (e : err) | Ob
 Inductive opt_case :=
 | OC (sch : schema) (tt : N) (T : nat) (stmts : list stmt) (strict lenient unlinked : obs).
 
-Definition remain_matches (stmts : list stmt) (idx : list nat) (rem : list stmt) : bool :=
-  list_eqb (fun i st => match nth_error stmts i with Some s => stmt_eqb s st | None => false end) idx rem.
+Fixpoint remain_matches (stmts : list stmt) (idx : list nat) (rem : list stmt) : bool :=
+  match idx, rem with
+  | [], [] => true
+  | i :: ir, st :: sr =>
+    match nth_error stmts i with Some s => stmt_eqb s st | None => false end && remain_matches stmts ir sr
+  | _, _ => false
+  end.
 
 Definition strict_matches (sch : schema) (T : nat) (stmts : list stmt) (r : res (mval * list stmt)) (o : obs) : bool :=
   match r, o with
@@ -619,15 +646,15 @@ Definition lenient_matches (sch : schema) (T : nat) (stmts : list stmt) (r : lre
 
 Definition opt_chk (c : opt_case) : bool :=
   match c with
-  | OC sch tt T stmts os ol ou =>
-    strict_matches sch T stmts (interpret_strict sch tt T [] stmts) os
-    && lenient_matches sch T stmts (interpret_lenient sch tt T [] stmts) ol
-    && lenient_matches sch T stmts (interpret_unlinked sch tt T [] stmts) ou
+  | OC sch tg T stmts os ol ou =>
+    strict_matches sch T stmts (interpret_strict sch tg T [] stmts) os
+    && lenient_matches sch T stmts (interpret_lenient sch tg T [] stmts) ol
+    && lenient_matches sch T stmts (interpret_unlinked sch tg T [] stmts) ou
   end.
 (* the three modes one at a time, to name the function that disagrees *)
 Definition opt_chk_strict (c : opt_case) : bool :=
-  match c with OC sch tt T stmts os _ _ => strict_matches sch T stmts (interpret_strict sch tt T [] stmts) os end.
+  match c with OC sch tg T stmts os _ _ => strict_matches sch T stmts (interpret_strict sch tg T [] stmts) os end.
 Definition opt_chk_lenient (c : opt_case) : bool :=
-  match c with OC sch tt T stmts _ ol _ => lenient_matches sch T stmts (interpret_lenient sch tt T [] stmts) ol end.
+  match c with OC sch tg T stmts _ ol _ => lenient_matches sch T stmts (interpret_lenient sch tg T [] stmts) ol end.
 Definition opt_chk_unlinked (c : opt_case) : bool :=
-  match c with OC sch tt T stmts _ _ ou => lenient_matches sch T stmts (interpret_unlinked sch tt T [] stmts) ou end.
+  match c with OC sch tg T stmts _ _ ou => lenient_matches sch T stmts (interpret_unlinked sch tg T [] stmts) ou end.
